@@ -1,6 +1,6 @@
 (* Proofs about the responder model (Model/Responder.v) and its specification
    (Model/ResponderSpec.v): C06. *)
-From Coq Require Import List NArith Bool Lia Permutation.
+From Coq Require Import List NArith Bool Lia Permutation PeanoNat.
 From Mdns Require Import Res Bytes Rec Intf Responder ResponderSpec ParamsResponder ParamsResponderPinned.
 Import ListNotations.
 Open Scope N_scope.
@@ -593,4 +593,317 @@ Proof.
   destruct (legacy inp); repeat split; try reflexivity; try apply Permutation_refl.
   - apply Permutation_map. exact Hp.
   - exact Hp.
+Qed.
+
+(* ---- theorem 2: outside the deviation classes the code's specification is the text ----------- *)
+
+Lemma nodup_b_NoDup l : nodup_b l = true -> NoDup l.
+Proof.
+  induction l as [|x l IH]; simpl; intros H; [constructor|].
+  apply andb_true_iff in H as [H1 H2]. constructor; [|apply IH; exact H2].
+  intros Hin. apply mem_In in Hin. rewrite Hin in H1. discriminate.
+Qed.
+
+Section Clean.
+Variable nc : list (bytes * bytes).
+Variable intf : myintf.
+Variable m : msg.
+Variable v4 : bool.
+
+Definition fam_ok (e : entry) : Prop :=
+  is_announced (e_status e) = true ->
+  forall a, In a (s_addrs (e_svc e)) -> addr_on_intf intf a = false \/ is_v4 a = v4.
+Definition host_ok (e : entry) : Prop :=
+  is_announced (e_status e) = true -> resolve_name nc (s_host (e_svc e)) = s_host (e_svc e).
+Definition key_ok (e : entry) : Prop :=
+  resolve_name nc (e_key e) = lower (resolve_name nc (s_fullname (e_svc e))).
+Definition sub_ok (q : question) (e : entry) : Prop :=
+  is_announced (e_status e) = true -> is_sub (e_svc e) (q_name q) = false.
+
+Lemma link_addrs_clean e : fam_ok e -> is_announced (e_status e) = true ->
+  link_addrs code_quirks intf v4 (e_svc e) = link_addrs text_quirks intf v4 (e_svc e).
+Proof.
+  intros Hf Ha. unfold link_addrs. cbn [k_family code_quirks text_quirks].
+  apply filter_ext_in. intros a Hin. destruct (Hf Ha a Hin) as [H|H].
+  - rewrite H, !andb_false_r. reflexivity.
+  - rewrite H, eqb_reflx. reflexivity.
+Qed.
+
+Lemma answerable_clean e : fam_ok e ->
+  answerable code_quirks intf v4 e = answerable text_quirks intf v4 e.
+Proof.
+  intros Hf. unfold answerable. destruct (is_announced (e_status e)) eqn:Ha; [|reflexivity].
+  rewrite (link_addrs_clean e Hf Ha). reflexivity.
+Qed.
+
+Lemma answerable_announced k e : answerable k intf v4 e = true -> is_announced (e_status e) = true.
+Proof. unfold answerable. intros H. apply andb_true_iff in H. tauto. Qed.
+
+Lemma svc_additionals_clean e : fam_ok e -> is_announced (e_status e) = true ->
+  svc_additionals code_quirks nc intf v4 (e_svc e) = svc_additionals text_quirks nc intf v4 (e_svc e).
+Proof. intros Hf Ha. unfold svc_additionals. rewrite (link_addrs_clean e Hf Ha). reflexivity. Qed.
+
+Lemma spec_ptr_entry_clean q e : fam_ok e -> sub_ok q e ->
+  spec_ptr_entry code_quirks nc intf m v4 q e = spec_ptr_entry text_quirks nc intf m v4 q e.
+Proof.
+  intros Hf Hs. unfold spec_ptr_entry. rewrite (answerable_clean e Hf).
+  destruct (answerable text_quirks intf v4 e) eqn:Ea; [|reflexivity].
+  apply answerable_announced in Ea.
+  rewrite (svc_additionals_clean e Hf Ea), (Hs Ea).
+  destruct (beq (q_name q) (s_ty (e_svc e))); reflexivity.
+Qed.
+
+Lemma spec_inst_entry_clean q e : fam_ok e -> host_ok e -> key_ok e ->
+  spec_inst_entry code_quirks nc intf m v4 q e = spec_inst_entry text_quirks nc intf m v4 q e.
+Proof.
+  intros Hf Hh Hk. unfold spec_inst_entry, inst_match.
+  cbn [k_lookup_lower k_srv_old_host code_quirks text_quirks].
+  rewrite (answerable_clean e Hf). unfold ci_eq, cur_inst. rewrite Hk, beq_sym.
+  destruct (beq (lower (q_name q)) (lower (resolve_name nc (s_fullname (e_svc e))))); [|reflexivity].
+  cbn [andb]. destruct (answerable text_quirks intf v4 e) eqn:Ea; [|reflexivity].
+  apply answerable_announced in Ea.
+  unfold cur_host. rewrite (Hh Ea), (link_addrs_clean e Hf Ea). reflexivity.
+Qed.
+
+Lemma spec_meta_clean entries q :
+  (beq (q_name q) META_QUERY = true -> nodup_b (meta_types entries) = true) ->
+  spec_meta code_quirks m entries q = spec_meta text_quirks m entries q.
+Proof.
+  intros H. unfold spec_meta. cbn [k_meta_dup code_quirks text_quirks].
+  destruct (beq (q_name q) META_QUERY); [|reflexivity].
+  rewrite nodup_fixed_point; [reflexivity|]. apply nodup_b_NoDup. apply H. reflexivity.
+Qed.
+
+Lemma spec_question_clean entries q :
+  (forall e, In e entries -> fam_ok e /\ host_ok e /\ key_ok e) ->
+  (q_type q =? 12 = true -> forall e, In e entries -> sub_ok q e) ->
+  (q_type q =? 12 = true -> beq (q_name q) META_QUERY = true -> nodup_b (meta_types entries) = true) ->
+  spec_question code_quirks nc intf m v4 entries q = spec_question text_quirks nc intf m v4 entries q.
+Proof.
+  intros He Hs Hm. unfold spec_question. destruct (q_type q =? 12) eqn:Et.
+  - rewrite (spec_meta_clean entries q (Hm eq_refl)). f_equal; [f_equal|];
+      apply flat_map_ext_in; intros e Hin; rewrite spec_ptr_entry_clean; try reflexivity;
+      try (apply He; exact Hin); apply Hs; auto.
+  - f_equal; [f_equal|]; apply flat_map_ext_in; intros e Hin;
+      rewrite spec_inst_entry_clean; try reflexivity; apply He; exact Hin.
+Qed.
+End Clean.
+
+Lemma clean_components inp : clean inp = true ->
+  let nc := h_name_changes inp in
+  let v4 := is_v4 (h_src_ip inp) in
+  (forall e, In e (h_services inp) -> fam_ok (h_intf inp) v4 e /\ host_ok nc e /\ key_ok nc e) /\
+  (forall q, In q (m_questions (h_msg inp)) -> q_type q =? 12 = true ->
+             forall e, In e (h_services inp) -> sub_ok q e) /\
+  (forall q, In q (m_questions (h_msg inp)) -> q_type q =? 12 = true -> beq (q_name q) META_QUERY = true ->
+             nodup_b (meta_types (h_services inp)) = true) /\
+  ((h_src_port inp =? 5353) = true \/ m_id (h_msg inp) = 0).
+Proof.
+  unfold clean. rewrite !andb_true_iff. intros (((((C1 & C2) & C3) & C4) & C5) & C6). cbv zeta.
+  rewrite forallb_forall in C2, C3, C4, C5.
+  assert (Hann : forall e, In e (h_services inp) -> is_announced (e_status e) = true ->
+                 In e (filter (fun e => is_announced (e_status e)) (h_services inp))).
+  { intros e Hin Ha. apply filter_In. split; assumption. }
+  repeat split.
+  - intros Ha a Hina. specialize (C3 e (Hann e H Ha)). rewrite forallb_forall in C3.
+    specialize (C3 a Hina). apply orb_true_iff in C3 as [C3|C3].
+    + left. apply negb_true_iff in C3. exact C3.
+    + right. apply eqb_prop in C3. exact C3.
+  - intros Ha. specialize (C4 e (Hann e H Ha)). apply beq_eq in C4. exact C4.
+  - specialize (C5 e H). apply beq_eq in C5. exact C5.
+  - intros q Hq Ht e He Ha. specialize (C2 q Hq). rewrite Ht in C2. cbn [negb orb] in C2.
+    rewrite forallb_forall in C2. specialize (C2 e (Hann e He Ha)). apply negb_true_iff in C2. exact C2.
+  - intros q Hq Ht Hm. apply orb_true_iff in C1 as [C1|C1]; [|exact C1].
+    apply negb_true_iff in C1. exfalso.
+    assert (existsb (fun q => (q_type q =? 12) && beq (q_name q) META_QUERY) (m_questions (h_msg inp)) = true).
+    { apply existsb_exists. exists q. rewrite Ht, Hm. auto. }
+    congruence.
+  - apply orb_true_iff in C6 as [C6|C6]; [left; exact C6|right; apply N.eqb_eq; exact C6].
+Qed.
+
+Theorem spec_code_is_text_when_clean inp : clean inp = true ->
+  spec code_quirks inp = spec text_quirks inp.
+Proof.
+  intros Hc. apply clean_components in Hc. cbv zeta in Hc. destruct Hc as (He & Hs & Hm & Hid).
+  unfold spec. cbv zeta.
+  assert (Hq : forall q, In q (m_questions (h_msg inp)) ->
+            spec_question code_quirks (h_name_changes inp) (h_intf inp) (h_msg inp) (is_v4 (h_src_ip inp)) (h_services inp) q
+            = spec_question text_quirks (h_name_changes inp) (h_intf inp) (h_msg inp) (is_v4 (h_src_ip inp)) (h_services inp) q).
+  { intros q Hin. apply spec_question_clean.
+    - exact He.
+    - intros Ht. apply Hs; assumption.
+    - intros Ht Hmq. eapply Hm; eassumption. }
+  assert (Ha : spec_answers code_quirks (h_name_changes inp) (h_intf inp) (h_msg inp) (is_v4 (h_src_ip inp)) (h_services inp)
+             = spec_answers text_quirks (h_name_changes inp) (h_intf inp) (h_msg inp) (is_v4 (h_src_ip inp)) (h_services inp)).
+  { unfold spec_answers. apply flat_map_ext_in. intros q Hin. rewrite Hq; [reflexivity|exact Hin]. }
+  assert (Hd : spec_additionals code_quirks (h_name_changes inp) (h_intf inp) (h_msg inp) (is_v4 (h_src_ip inp)) (h_services inp)
+             = spec_additionals text_quirks (h_name_changes inp) (h_intf inp) (h_msg inp) (is_v4 (h_src_ip inp)) (h_services inp)).
+  { unfold spec_additionals. apply flat_map_ext_in. intros q Hin. rewrite Hq; [reflexivity|exact Hin]. }
+  rewrite Ha, Hd. cbn [k_legacy_id code_quirks text_quirks].
+  assert (Hidq : (if legacy inp then 0 else 0) = (if legacy inp then m_id (h_msg inp) else 0)).
+  { unfold legacy. destruct Hid as [Hp|Hz]; [rewrite Hp; reflexivity|rewrite Hz; reflexivity]. }
+  rewrite Hidq. reflexivity.
+Qed.
+
+(* ---- the executable checker accepts equivalent reactions ------------------------------------- *)
+
+Lemma mset_eqb_perm a b : Permutation a b -> mset_eqb a b = true.
+Proof.
+  intros H. unfold mset_eqb. apply forallb_forall. intros x _.
+  apply Nat.eqb_eq. apply (Permutation_count_occ rr_eq_dec). exact H.
+Qed.
+
+Lemma ip_eqb_refl a : ip_eqb a a = true.
+Proof. destruct a; simpl; apply N.eqb_refl. Qed.
+
+Lemma dest_eqb_refl d : dest_eqb d d = true.
+Proof. destruct d; simpl; [apply eqb_reflx|rewrite ip_eqb_refl, N.eqb_refl; reflexivity]. Qed.
+
+Lemma questions_eqb_refl l : questions_eqb l l = true.
+Proof.
+  induction l as [|[n t] l IH]; simpl; [reflexivity|].
+  unfold ci_eq. rewrite beq_refl, N.eqb_refl, IH. reflexivity.
+Qed.
+
+Lemma reaction_equiv_eqb a b : reaction_equiv a b -> opt_packet_eqb a b = true.
+Proof.
+  destruct a as [p|], b as [q|]; simpl; try tauto.
+  intros (H1 & H2 & H3 & H4 & H5 & H6 & H7). unfold packet_eqb.
+  rewrite H1, H2, H3, H4, H5, dest_eqb_refl, !N.eqb_refl, questions_eqb_refl.
+  rewrite !mset_eqb_perm; [reflexivity| |]; apply Permutation_map; assumption.
+Qed.
+
+Theorem response_characterised inp :
+  wf_input inp = true -> clean inp = true -> chk_C06 inp (handle_query inp) = true.
+Proof.
+  intros Hwf Hc. unfold chk_C06. apply reaction_equiv_eqb.
+  rewrite <- (spec_code_is_text_when_clean inp Hc). apply model_is_spec_code. exact Hwf.
+Qed.
+
+Theorem response_characterised_prop inp :
+  wf_input inp = true -> clean inp = true -> reaction_equiv (handle_query inp) (spec text_quirks inp).
+Proof.
+  intros Hwf Hc. rewrite <- (spec_code_is_text_when_clean inp Hc). apply model_is_spec_code. exact Hwf.
+Qed.
+
+Theorem explained_by_code inp :
+  wf_input inp = true -> explained_by code_quirks inp (handle_query inp) = true.
+Proof. intros Hwf. apply reaction_equiv_eqb. apply model_is_spec_code. exact Hwf. Qed.
+
+(* ---- legacy unicast and multicast replies ----------------------------------------------------- *)
+
+Lemma Forall_clear_flush l : Forall (fun r => r_flush r = false) (map clear_flush l).
+Proof. induction l; simpl; constructor; auto. Qed.
+
+Theorem legacy_unicast inp p :
+  wf_input inp = true -> handle_query inp = Some p -> h_src_port inp <> 5353 ->
+  p_dest p = DUnicast (h_src_ip inp) (h_src_port inp) /\
+  p_questions p = map (fun q => (q_name q, q_type q)) (m_questions (h_msg inp)) /\
+  Forall (fun r => r_flush r = false) (p_answers p ++ p_additionals p) /\
+  p_id p = 0.
+Proof.
+  intros Hwf Hq Hport. apply wf_input_entries in Hwf. rewrite (handle_query_shape inp Hwf) in Hq.
+  cbv zeta in Hq.
+  assert (Hl : legacy inp = true).
+  { unfold legacy. apply negb_true_iff. apply N.eqb_neq. exact Hport. }
+  rewrite Hl in Hq.
+  destruct (is_nil _); [discriminate|]. destruct (negb _); [discriminate|].
+  inversion Hq; subst p; clear Hq. cbn [p_dest p_questions p_answers p_additionals p_id].
+  repeat split. apply Forall_app. split; apply Forall_clear_flush.
+Qed.
+
+Theorem multicast_reply inp p :
+  wf_input inp = true -> handle_query inp = Some p -> h_src_port inp = 5353 ->
+  p_dest p = DMulticast (is_v4 (h_src_ip inp)) /\ p_questions p = [] /\ p_id p = 0.
+Proof.
+  intros Hwf Hq Hport. apply wf_input_entries in Hwf. rewrite (handle_query_shape inp Hwf) in Hq.
+  cbv zeta in Hq.
+  assert (Hl : legacy inp = false) by (unfold legacy; rewrite Hport; reflexivity).
+  rewrite Hl in Hq.
+  destruct (is_nil _); [discriminate|]. destruct (negb _); [discriminate|].
+  inversion Hq; subst p. cbn. repeat split.
+Qed.
+
+(* ---- silence ------------------------------------------------------------------------------------ *)
+
+Lemma fold_left_id {A B} (step : B -> A -> B) (l : list A) (b : B) :
+  (forall b x, In x l -> step b x = b) -> fold_left step l b = b.
+Proof.
+  induction l as [|x l IH]; simpl; intros H; [reflexivity|].
+  rewrite H; [|left; reflexivity]. apply IH. intros b' y Hy. apply H. right. exact Hy.
+Qed.
+
+Lemma handle_query_no_answers inp :
+  fold_left (question_step inp (is_v4 (h_src_ip inp))) (m_questions (h_msg inp))
+            (og_new (N.lor flags_qr_response flags_aa)) = og_new (N.lor flags_qr_response flags_aa) ->
+  handle_query inp = None.
+Proof. intros H. unfold handle_query. rewrite H. reflexivity. Qed.
+
+Theorem silent_for_unknown inp :
+  (forall e, In e (h_services inp) -> is_announced (e_status e) = false) ->
+  handle_query inp = None.
+Proof.
+  intros Hna. apply handle_query_no_answers. apply fold_left_id. intros og q _.
+  unfold question_step.
+  assert (Hp : fold_left (ptr_step inp q (is_v4 (h_src_ip inp))) (h_services inp) og = og).
+  { apply fold_left_id. intros og' e He. unfold ptr_step. rewrite (Hna e He). reflexivity. }
+  assert (Ha : fold_left (addr_step inp q) (h_services inp) og = og).
+  { apply fold_left_id. intros og' e He. unfold addr_step. rewrite (Hna e He). reflexivity. }
+  destruct (q_type q =? TY_PTR); [exact Hp|].
+  rewrite Ha.
+  assert (Hog1 : (if (q_type q =? TY_A) || (q_type q =? TY_AAAA) || (q_type q =? TY_ANY) then og else og) = og)
+    by (destruct (_ || _); reflexivity).
+  rewrite Hog1.
+  destruct (find _ (h_services inp)) as [e|] eqn:Ef; [|reflexivity].
+  apply find_some in Ef as [He _]. rewrite (Hna e He). reflexivity.
+Qed.
+
+Definition no_address_on_link (intf : myintf) (s : service) : Prop :=
+  forall a, In a (s_addrs s) -> addr_on_intf intf a = false.
+
+Lemma filter_nil {A} (p : A -> bool) l : (forall x, In x l -> p x = false) -> filter p l = [].
+Proof.
+  induction l as [|x l IH]; simpl; intros H; [reflexivity|].
+  rewrite (H x (or_introl eq_refl)). apply IH. intros y Hy. apply H. right. exact Hy.
+Qed.
+
+Lemma no_address_v4 intf s : no_address_on_link intf s -> addrs_on_intf_v4 (s_addrs s) intf = [].
+Proof. intros H. apply filter_nil. intros a Ha. rewrite (H a Ha). apply andb_false_r. Qed.
+Lemma no_address_v6 intf s : no_address_on_link intf s -> addrs_on_intf_v6 (s_addrs s) intf = [].
+Proof. intros H. apply filter_nil. intros a Ha. rewrite (H a Ha). apply andb_false_r. Qed.
+
+Theorem silent_without_address inp :
+  (forall e, In e (h_services inp) -> is_announced (e_status e) = true ->
+             no_address_on_link (h_intf inp) (e_svc e)) ->
+  (forall q, In q (m_questions (h_msg inp)) -> q_type q = 12 -> q_name q <> META_QUERY) ->
+  handle_query inp = None.
+Proof.
+  intros Hno Hmeta. apply handle_query_no_answers. apply fold_left_id. intros og q Hq.
+  unfold question_step.
+  assert (Hia : forall e v4, In e (h_services inp) -> is_announced (e_status e) = true ->
+                intf_addrs_of v4 (e_svc e) (h_intf inp) = []).
+  { intros e v4 He Ha. unfold intf_addrs_of. destruct v4;
+      [apply no_address_v4|apply no_address_v6]; apply Hno; assumption. }
+  destruct (q_type q =? TY_PTR) eqn:Et.
+  - apply fold_left_id. intros og' e He. unfold ptr_step.
+    destruct (is_announced (e_status e)) eqn:Ea; [|reflexivity]. cbn [negb].
+    destruct (matches_type_or_subtype (e_svc e) (q_name q)).
+    + unfold add_answer_with_additionals. rewrite (Hia e _ He Ea). reflexivity.
+    + destruct (beq (q_name q) META_QUERY) eqn:Em; [|reflexivity].
+      exfalso. apply beq_eq in Em. apply (Hmeta q Hq); [|exact Em].
+      apply N.eqb_eq in Et. exact Et.
+  - assert (Ha : fold_left (addr_step inp q) (h_services inp) og = og).
+    { apply fold_left_id. intros og' e He. unfold addr_step.
+      destruct (is_announced (e_status e)) eqn:Ea; [|reflexivity]. cbn [negb].
+      destruct (beq _ _); [|reflexivity].
+      rewrite (no_address_v4 _ _ (Hno e He Ea)), (no_address_v6 _ _ (Hno e He Ea)).
+      destruct (_ || _), (_ || _); reflexivity. }
+    assert (Hog1 : (if (q_type q =? TY_A) || (q_type q =? TY_AAAA) || (q_type q =? TY_ANY)
+                    then fold_left (addr_step inp q) (h_services inp) og else og) = og)
+      by (rewrite Ha; destruct (_ || _); reflexivity).
+    rewrite Hog1.
+    destruct (find _ (h_services inp)) as [e|] eqn:Ef; [|reflexivity].
+    apply find_some in Ef as [He _].
+    destruct (is_announced (e_status e)) eqn:Ea; [|reflexivity]. cbn [negb].
+    rewrite (Hia e _ He Ea). reflexivity.
 Qed.
